@@ -47,6 +47,8 @@
   oracle of `solve.twice` requires a bit-identical second solve after EVERY first solve.
 -/
 import ClarabelProofs.Lemmas.SolverModelIdem
+import ClarabelProofs.Lemmas.SolverNormCachesC
+import ClarabelProofs.Lemmas.SolverNormCaches
 import ClarabelProofs.Lemmas.SolverModelExample
 import ClarabelProofs.Props.C10
 import Mathlib.Algebra.Order.Field.Rat
@@ -74,24 +76,79 @@ theorem full_solve_info_irrelevant (S : Solver α) (st : Solver.Settings α) (i 
     ({ S with st := withInfo S.st i a b c } : Solver α).solve st = S.solve st :=
   solve_withInfo S st i a b c hp
 
-/-- [S] `C05.full_solve_keeps_data`: `solve()` never writes the internal problem data (`P, q, A, b`,
-cones, equilibration, presolver map, norm caches): a second `solve()` on the same object works on
-exactly the data of the first. -/
+/-- [S] `C05.full_solve_keeps_data`: `solve()` writes nothing of the internal problem data (`P, q, A,
+b`, cones, `n`, `m`, equilibration, presolver map) EXCEPT THE TWO NORM CACHES: the data of the returned
+object is the data at entry with `normq`, `normb` replaced (by what: `full_solve_fills_norm_caches`).
+(Until round 8 the model's `solve()` did not store the caches `DefaultInfo::update` fills — the
+statement then read `r.S.st.data = S.st.data`, true of the model and false of the real object.) -/
 theorem full_solve_keeps_data {S : Solver α} {st : Solver.Settings α} {r : SolveResult α}
-    (h : S.solve st = .ok r) : r.S.st.data = S.st.data :=
-  solve_data h
+    (h : S.solve st = .ok r) :
+    r.S.st.data = { S.st.data with normq := r.S.st.data.normq, normb := r.S.st.data.normb } := by
+  obtain ⟨nq, nb, _, _, e⟩ := solve_data_eq h
+  rw [e]
+
+/-- [S] `C05.full_solve_fills_norm_caches`: what `solve()` leaves in the two norm caches of the solver
+object — `DefaultInfo::update` calls `data.get_normq()` / `data.get_normb()` at the top of every pass,
+and these FILL a cache that is `None` —: after a `solve()` that returned, `normq = Some(v_q)`,
+`normb = Some(v_b)` with `v_q`, `v_b` the answers of `get_normq` / `get_normb` on the data AT ENTRY: the
+value a cache already held (also a STALE one, after a rejected partial `update_q` / `update_b`), else
+`‖D⁻¹q̂‖∞ / c`, `‖E⁻¹b̂‖∞` computed from the current `q̂`, `b̂` and the equilibration.  In one formula:
+the data returned is `fillNorms` of the data at entry. -/
+theorem full_solve_fills_norm_caches {S : Solver α} {st : Solver.Settings α} {r : SolveResult α}
+    (h : S.solve st = .ok r) :
+    fillNorms S.st.data = .ok r.S.st.data
+    ∧ ∃ vq vb, Info.getNormq S.st.data.normq S.st.data.q S.st.data.equilibration.dinv
+          S.st.data.equilibration.c = .ok vq
+        ∧ Info.getNormb S.st.data.normb S.st.data.b S.st.data.equilibration.einv = .ok vb
+        ∧ r.S.st.data.normq = some vq ∧ r.S.st.data.normb = some vb := by
+  refine ⟨solve_data h, ?_⟩
+  obtain ⟨nq, nb, hq, hb, e⟩ := solve_data_eq h
+  exact ⟨nq, nb, hq, hb, by rw [e], by rw [e]⟩
+
+/-- [S] `C05.full_second_solve_keeps_data`: from the second `solve()` on, NOTHING of the data changes,
+the caches included: a cache that is `Some(v)` answers `v` and stays `Some(v)`. -/
+theorem full_second_solve_keeps_data {S : Solver α} {st : Solver.Settings α} {r1 r2 : SolveResult α}
+    (h1 : S.solve st = .ok r1) (h2 : r1.S.solve st = .ok r2) : r2.S.st.data = r1.S.st.data := by
+  obtain ⟨nq, nb, _, _, e1⟩ := solve_data_eq h1
+  obtain ⟨nq', nb', hq, hb, e2⟩ := solve_data_eq h2
+  rw [e1] at hq hb
+  have hq' : nq' = nq := (Except.ok.inj hq).symm
+  have hb' : nb' = nb := (Except.ok.inj hb).symm
+  rw [e2, hq', hb', e1]
 
 /-- [S] `C05.full_solve_idempotent_partial`: the second of two `solve()` calls on the same object is
 the solve from the state in which the `info` block left by the first call is replaced by the one
-the first call started from (keeping the `prev_*` the first call left: `withInfoOf`), on the same data.
+the first call started from (keeping the `prev_*` the first call left: `withInfoOf`), on the same data
+up to the norm caches the first call filled.
 Full statement (not a theorem at `Float`, see the header): `r1.S.solve st = S.solve st` up to the
 final state — i.e. the same replacement for `variables`, `residuals`, `kktsystem`, `cones`,
 `stepLhs`, `stepRhs`, `prevVars`. -/
 theorem full_solve_idempotent_partial {S : Solver α} {st : Solver.Settings α} {r1 : SolveResult α}
     (h : S.solve st = .ok r1) :
-    r1.S.st.data = S.st.data
+    fillNorms S.st.data = .ok r1.S.st.data
     ∧ r1.S.solve st = (withInfoOf S r1.S).solve st :=
   ⟨solve_data h, (solve_withInfoOf S r1.S st).symm⟩
+
+/-- [S] `C05.full_solve_stores_caches_as_the_code`: **where the norm caches are stored does not matter.**
+`Solver.solveC` (`ClarabelModel/Solver/SolveC.lean`) is `solve()` with the caches stored IN THE PASS, at
+`Info.update` — where the Rust code stores them (`get_normq` / `get_normb` fill `self.normq` /
+`self.normb`) —, and nowhere else; `Solver.solve`, the model every other theorem is about and the
+correspondence channels run, reads the caches at entry in every pass and stores the filled caches once,
+in the object it returns.  The two are the same function: same error, or same trajectory, same solution,
+same returned solver object, caches included. -/
+theorem full_solve_stores_caches_as_the_code (S : Solver α) (st : Solver.Settings α) :
+    S.solveC st = S.solve st :=
+  solveC_eq_solve S st
+
+/-- [S] `C05.full_next_solve_on_entry_data`: the `solve()` AFTER a `solve()` is the `solve()` on the
+returned object with the data at entry put back: the two caches the first call filled answer
+`get_normq` / `get_normb` exactly as the caches at entry did.  (This is what lets every statement about
+"the second solve on the same data" — `full_solve_idempotent*`, `C08`'s histories — apply to the real
+second solve, whose data differs from the first's in the two caches.) -/
+theorem full_next_solve_on_entry_data {S : Solver α} {st : Solver.Settings α} {r : SolveResult α}
+    (h : S.solve st = .ok r) (st' : Solver.Settings α) :
+    r.S.solve st' = (r.S.withData S.st.data).solve st' :=
+  solve_putBack h st'
 
 end full
 
